@@ -568,7 +568,8 @@ def run_case(idx, rng, tier, rep):
         e_open(x, False, k)
 
     BAD_HEADERS = [[(b':method', b'GET')], [(b':method', b'GET'), (b':scheme', b'https'), (b':path', b'/'), (b'Upper', b'x')],
-                   [(b'x-first', b'1')] + REQ, REQ + [(b':path', b'/again')], REQ + [(b'connection', b'close')]]
+                   [(b'x-first', b'1')] + REQ, REQ + [(b':path', b'/again')], REQ + [(b'connection', b'close')],
+                   REQ + [(b'x-broken', None)], REQ + [(b'content-length', 0)]]
 
     def e_open_failing_for_other_reason():
         """A well-chosen id but an invalid header list: the call raises, so the id was not used."""
